@@ -12,7 +12,8 @@ RULE = ("arc tissues (random bulge, 8..35 cells) x arbitrary positive tensions o
         "time steps x independent renumbering of every frame x method {default, lsq, lsq_linear}; other frames move by "
         "arbitrary small fields. decisive = oracle system of the method has full column rank, the 3-decimal rounding bound "
         "5e-4*sum|pinv| <= 0.05, tracking bounds hold on every pair. distinct = (cells, frames, target position, method, "
-        "equations, unknowns); non-trivial = at least one junction equation")
+        "equations, unknowns); non-trivial = at least one junction equation"
+        ' Added after the seeded rounds: another frame or an adimensional solve first on the same object; rosettes (square systems); all-defaults solves; wrong tracking inside the bounds is a violation.')
 MIN_DECISIVE = {"quick": 50, "thorough": 900}
 REQUIRED_COUNTERS = ["post:solve_stress", "tension:compared"]
 REQUIRED_HIST = {"any": ["target:first", "target:middle", "target:last", "method:default", "method:lsq", "method:lsq_linear"]}
